@@ -176,6 +176,42 @@ func c20History(c *h.Ctx, id string, r *rand.Rand) {
 		cr.tm = repoClock{dummy.NewTimer()} // the repository's own virtual timer (an anchor of this property)
 		c.Count("histories_on_repository_timer", 1)
 	}
+	// a second, independent engine with its own timer lives next to the one under test (an
+	// application may run several): it expresses one Interest now; at the end of the history its
+	// clock is moved past the lifetime and that Interest must have timed out exactly once
+	var byTimer *dummy.Timer
+	var byResults []ndn.InterestResult
+	var byMu sync.Mutex
+	if _, isRepo := cr.tm.(repoClock); isRepo {
+		byTimer = dummy.NewTimer()
+		byFace := simeng.NewFace(true)
+		byEng := basic.NewEngine(byFace, byTimer, sec.NewSha256IntSigner(byTimer), func(enc.Name, enc.Wire, ndn.Signature) bool { return true })
+		if byEng.Start() == nil {
+			bn, _ := enc.NameFromStr("/bystander")
+			life := 100 * time.Millisecond
+			if bi, err := (spec.Spec{}).MakeInterest(bn, &ndn.InterestConfig{Lifetime: &life}, nil, nil); err == nil {
+				_ = byEng.Express(bi, func(a ndn.ExpressCallbackArgs) {
+					byMu.Lock()
+					byResults = append(byResults, a.Result)
+					byMu.Unlock()
+				})
+			}
+		} else {
+			byTimer = nil
+		}
+	}
+	defer func() {
+		if byTimer == nil || cr.stop {
+			return
+		}
+		byTimer.MoveForward(10 * time.Second)
+		byMu.Lock()
+		defer byMu.Unlock()
+		c.Count("bystander_engine_checks", 1)
+		if len(byResults) != 1 || byResults[0] != ndn.InterestResultTimeout {
+			cr.fail("C20:second-engine-interest-not-resolved-once", fmt.Sprintf("an Interest expressed on a second, independent engine (own timer) was resolved %v after its clock moved 10 s past a 100 ms lifetime (exactly one Timeout expected)", byResults), nil)
+		}
+	}()
 	cr.face = simeng.NewFace(true)
 	cr.eng = basic.NewEngine(cr.face, cr.tm, sec.NewSha256IntSigner(cr.tm), func(enc.Name, enc.Wire, ndn.Signature) bool { return true })
 	if err := cr.eng.Start(); err != nil {
